@@ -319,6 +319,10 @@ def run_stubbed(req, vi, sd):
     else:
         s = 1.25
         R = Rendering("rotated", s, katoms.random_rotation(rnd))
+    fine = int(req.get("fine", 1))
+    if fine != 1:                              # a finer lattice at the same physical size
+        s = s / fine
+        R = Rendering(R.name, s, R.Q)
     ev = dict(req)
     ev.update({"post": empty_K(), "count": -1, "exc": "none", "src_same": "yes", "wf": "ok"})
     try:
@@ -385,8 +389,8 @@ def stub_cfg(c, emit):
 
 
 STUB_TIERS = {
-    "quick": dict(SPNames='{"CH", "NCN", "CCH", "CHN"}', Flavours='{"p", "b", "m", "d"}', MaxCopies=3, Fracs="FracsQ", variants=2, sample=5000),
-    "thorough": dict(SPNames='{"CH", "NCN", "CCH", "CHN"}', Flavours='{"p", "b", "m", "d"}', MaxCopies=3, Fracs="FracsT", variants=3),
+    "quick": dict(SPNames='{"CH", "NCN", "CCH", "CHN"}', Flavours='{"p", "b", "m", "d", "f"}', MaxCopies=3, Fracs="FracsQ", variants=2, sample=6000),
+    "thorough": dict(SPNames='{"CH", "NCN", "CCH", "CHN"}', Flavours='{"p", "b", "m", "d", "f"}', MaxCopies=3, Fracs="FracsT", variants=3),
 }
 
 
